@@ -1801,6 +1801,12 @@ impl SocketAddress for unix::net::SocketAddr {
             }
         }
 
+        // The length reported by the kernel includes the terminating null byte,
+        // which is not part of the path (and is rejected by `from_pathname`).
+        let path = match path.iter().position(|b| *b == 0) {
+            Some(idx) => &path[..idx],
+            None => path,
+        };
         unix::net::SocketAddr::from_pathname(Path::new(OsStr::from_bytes(path)))
             // Fallback to an unnamed address.
             // SAFETY: unnamed (zero length) address is valid.
